@@ -16,7 +16,7 @@
   cubed/utils.py  convert_to_bytes (str)              `convertStr`  (= `stripSpaces`, `splitValueUnit`, `lexNumber`, `litToBytes`)
   cubed/utils.py  convert_to_bytes (int / float)      `convertInt`, `convertRatio`
   float(s) succeeding  (is_numeric_str)               `isNumericStr`  (`lexNumber s` is `some _`)
-  fractions.Fraction(value)                            `lexNumber` giving `.finite lit` (`.special` = inf/nan -> ValueError)
+  decimal.Decimal(value)                               `lexNumber` giving `.finite lit` (`.special` = inf/nan), `decimalOk`, `Lit.adjusted`, `outOfRange`
 
   Independent denotation of a size literal (what the string *means*, SI units fixed here and not taken from the code):
   `denote`, `Lit.value`, `siTable`.
@@ -181,6 +181,7 @@ inductive BytesErr where
   | format        -- ValueError "Expected the string to be a numeric value ending with an SI prefix"
   | nonInteger    -- ValueError "Can't have a non-integer number of bytes" (also inf / nan)
   | negative      -- ValueError "Must be a positive value"
+  | range         -- ValueError "Exponent is out of range"
   | index         -- IndexError (empty string: `size[-1]`)
   deriving DecidableEq, Repr
 
@@ -305,17 +306,46 @@ def splitValueUnit (cs : List Char) : Except BytesErr (List Char × Nat) :=
                     else .error .format
         | none => .error .format
 
-/-- `Fraction(value) * factor`, whole-number test, sign test — in integers:
+/-- Coefficient digits of `decimal.Decimal(value)`: the digits of integer and fraction part without leading zeros
+(empty for zero). -/
+def coeffDigits (l : Lit) : List Nat := (l.ip ++ l.fp).dropWhile (· == 0)
+
+/-- Exponent of the `Decimal`: written exponent minus the number of fraction digits. -/
+def Lit.decExp (l : Lit) : Int := l.exp - l.fp.length
+
+/-- `Decimal.adjusted()`: position of the most significant digit (`exponent + #coefficient digits − 1`;
+the coefficient of zero has one digit). -/
+def Lit.adjusted (l : Lit) : Int := l.decExp + (max 1 (coeffDigits l).length : Nat) - 1
+
+/-- `Decimal(value)` does not raise `InvalidOperation` (an `ArithmeticError`, turned into nan by the code):
+the exact constructor works in the maximal context, `adjusted ≤ MAX_EMAX` and `exponent ≥ MIN_ETINY`. -/
+def decimalOk (l : Lit) : Bool :=
+  decide (l.adjusted ≤ 999999999999999999) && decide (-1999999999999999997 ≤ l.decExp)
+
+/-- `decimal_value != 0 and abs(decimal_value.adjusted()) > bound` -/
+def outOfRange (l : Lit) : Bool :=
+  !(coeffDigits l).isEmpty && decide ((GeneratedC18.adjustedBound : Int) < l.adjusted.natAbs)
+
+/-- `Fraction(decimal_value) * factor`, whole-number test, sign test — in integers:
 the value is `± m · 10^e · factor` with `m` the digits of integer and fraction part and `e = exp − #fraction digits`. -/
-def litToBytes (l : Lit) (factor : Nat) : Except BytesErr Nat :=
+def litToBytesCore (l : Lit) (factor : Nat) : Except BytesErr Nat :=
   let m := ofDigits (l.ip ++ l.fp)
-  let e : Int := l.exp - l.fp.length
+  let e : Int := l.decExp
   let num := m * 10 ^ e.toNat * factor
   let den := 10 ^ (-e).toNat
   if num % den != 0 then .error .nonInteger
   else
     let n := num / den
     if l.neg && n != 0 then .error .negative else .ok n
+
+/-- The tests on the parsed value in the order of the code: `Decimal(value)` representable (else nan → "non-integer"),
+zero (exempt from the range test; `Fraction(0)`), exponent range, then the exact conversion.  The range tests come
+first so that no astronomically large power of ten is ever materialised. -/
+def litToBytes (l : Lit) (factor : Nat) : Except BytesErr Nat :=
+  if !decimalOk l then .error .nonInteger
+  else if (coeffDigits l).isEmpty then .ok 0
+  else if outOfRange l then .error .range
+  else litToBytesCore l factor
 
 /-- `convert_to_bytes(size)` for a string. -/
 def convertStr (s : List Char) : Except BytesErr Nat :=
